@@ -134,6 +134,28 @@ end
 def acceptsTop (tbl : Schema) (ss : List Stmt) : Bool :=
   ss.all fun s => (s.kw == kwModule || s.kw == kwSubmodule) && accepts tbl s
 
+/-- In the table, a statement spelled `P` must have a substatement spelled `C`
+(`required`, or `required=P`). -/
+def requiresB (tbl : Schema) (P C : Bytes) : Bool :=
+  match typeFor tbl P with
+  | none => false
+  | some t =>
+    match tbl.types[t]? with
+    | none => false
+    | some T =>
+      T.fields.any fun f =>
+        fieldIs tbl f C && (f.required || f.reqKinds.any (fun k => tbl.kwName k == some P))
+
+/-- The mandatory substatements the property text names (RFC 7950: leaf/leaf-list/typedef need a
+type, import and belongs-to a prefix, module a namespace and a prefix, submodule a belongs-to,
+deviation a deviate), as (statement, substatement) spellings. -/
+def namedMandatory : List (Bytes × Bytes) :=
+  let b := fun (s : String) => s.toList.map (fun c => c.toNat.toUInt8)
+  [(b "leaf", b "type"), (b "leaf-list", b "type"), (b "typedef", b "type"),
+   (b "import", b "prefix"), (b "belongs-to", b "prefix"),
+   (b "module", b "namespace"), (b "module", b "prefix"), (b "submodule", b "belongs-to"),
+   (b "deviation", b "deviate")]
+
 /-! ### well-formedness of the table -/
 
 def nodupNat : List Nat → Bool
